@@ -512,6 +512,7 @@ class SctpRig:
             mon.opens += 1
             self.counters["open_events"] += 1
             self.log("open", ep.name, chan.uid if chan else None, obj.id)
+            self.trace.append((round(self.loop.time() - self.t0, 6), ep.name, chan.uid if chan else None, "open"))
             if mon.opens > 1:
                 self.violation("lifecycle", "open-twice", "more than one open event", ep=ep.name,
                                chan=chan.uid if chan else None)
@@ -524,6 +525,7 @@ class SctpRig:
             mon.closes += 1
             self.counters["close_events"] += 1
             self.log("close", ep.name, chan.uid if chan else None, obj.id)
+            self.trace.append((round(self.loop.time() - self.t0, 6), ep.name, chan.uid if chan else None, "close"))
             if mon.closes > 1:
                 self.violation("lifecycle", "close-twice", "more than one close event", ep=ep.name,
                                chan=chan.uid if chan else None)
